@@ -34,10 +34,10 @@ struct topology {
 };
 
 /// Allowed directions to reach a neighbor in a TOPOLOGY_HEXAGON
-static enum topology_direction directions_hexagon[] = {DIRECTION_E, DIRECTION_W, DIRECTION_NE, DIRECTION_NW,
+static const enum topology_direction directions_hexagon[] = {DIRECTION_E, DIRECTION_W, DIRECTION_NE, DIRECTION_NW,
     DIRECTION_SE, DIRECTION_SW};
 /// Allowed directions to reach a neighbor in either a TOPOLOGY_SQUARE or a TOPOLOGY_TORUS
-static enum topology_direction directions_square_torus[] = {DIRECTION_E, DIRECTION_W, DIRECTION_N, DIRECTION_S};
+static const enum topology_direction directions_square_torus[] = {DIRECTION_E, DIRECTION_W, DIRECTION_N, DIRECTION_S};
 
 /**
  * @brief Return a random neighbor
@@ -51,14 +51,17 @@ static enum topology_direction directions_square_torus[] = {DIRECTION_E, DIRECTI
  * @param from source element of the random receiver computation
  * @param topology the topology currently being considered
  * @param n_directions the number of valid directions for the given topology
- * @param directions the number of directions (a variable array)
+ * @param all_directions the valid directions for the given topology (a variable array, not modified)
  *
  * @return A random neighbor according to the specified topology
  */
 static lp_id_t get_random_neighbor(lp_id_t from, struct topology *topology, size_t n_directions,
-    enum topology_direction directions[n_directions])
+    const enum topology_direction all_directions[n_directions])
 {
 	lp_id_t ret = INVALID_DIRECTION;
+	// Shuffle a private copy: the result must depend only on the caller's random stream
+	enum topology_direction directions[n_directions];
+	memcpy(directions, all_directions, sizeof(directions));
 
 	assert(topology->geometry != TOPOLOGY_RING);
 	assert(topology->geometry != TOPOLOGY_BIDRING);
